@@ -366,10 +366,10 @@ def c19(tier):
                     constants=dict(PoolFile='pool.ndjson', MaxCalls=calls), invariants=['LawDocumented', 'Emit'])
     if tier == 'quick':
         return [conc_model('sequential', 1, 'P1'), ph('parse-histories3', 3, 'quick'),
-                ph('parse-histories10-simulated', 10, 'thorough', timeout=10, simulate=1000000, depth=12, max_cases=6000)]
+                ph('parse-histories10-simulated', 10, 'thorough', timeout=10, simulate=1000000, depth=12, max_cases=6000, workers=1)]
     return [conc_model('sequential', 1, 'P1'), conc_mutants([('ResetParser', 1, 'P1', 'ResidueFree')]),
             ph('parse-histories3-large-pool', 3, 'thorough', 7200), ph('parse-histories4', 4, 'quick', 14400),
-            ph('parse-histories10-simulated', 10, 'thorough', timeout=300, simulate=100000000, depth=12, max_cases=300000)]
+            ph('parse-histories10-simulated', 10, 'thorough', timeout=300, simulate=100000000, depth=12, max_cases=300000, workers=1)]
 
 
 def c06_sched():
